@@ -41,7 +41,7 @@ DEVS = {
 BASE = dict(Node="{1,2}", BaseName='{"a","b"}', ExtraName="{}",
             Kinds='{"index","fixed","virtual","free","calc"}', Opts='{"plain"}',
             MaxBatch=1, MaxReq=2, MaxCtr=12, MaxRestart=0,
-            Types='{"create","delete","rename"}', Chain="FALSE",
+            Types='{"create","delete","rename"}', Chain="FALSE", CtlRename="FALSE",
             InjectFail="FALSE", AnyPeerOrder="FALSE", Window_EngineBeforeMeta="TRUE")
 
 # configuration in which each single deviation reaches its counterexample
@@ -267,6 +267,26 @@ def judge(ctx, rows, by_id, tag, notes):
     return real
 
 
+def refused_batch_rename(h):
+    """stratum: behaviours with a multi-entry rename the metadata update refuses."""
+    return any(st["t"] == "rename" and len(st["ents"]) >= 2 and st["res"] == "fail" and st["why"] == "not-found"
+               for st in h)
+
+
+def pick(allh, prof, seed):
+    """seeded sample; half of it from the profile's preferred stratum when it has one."""
+    n = prof.get("sample")
+    if not n or len(allh) <= n:
+        return allh
+    pref = prof.get("prefer")
+    if not pref:
+        return vlib.sample(allh, n, seed)
+    a = [h for h in allh if pref(h)]
+    b = [h for h in allh if not pref(h)]
+    take = vlib.sample(a, n // 2, seed)
+    return take + vlib.sample(b, n - len(take), seed)
+
+
 def gen_profiles(thorough):
     allk = '{"index","fixed","variable","virtual","free","calc","badtype"}'
     opts = '{"plain","retrieve","overwrite"}'
@@ -297,6 +317,17 @@ def gen_profiles(thorough):
     p.append(dict(name="bfs_free_rename", mode="bfs", sample=1500 if thorough else 150,
                   consts=dict(Node="{1,2}", BaseName='{"a"}', ExtraName='{"b"}', Kinds='{"free"}',
                               Types='{"create","rename"}', MaxReq=4, MaxRestart=1), depth=4))
+    # renames that must be REFUSED after valid entries of the same batch: an internal channel
+    # (allowInternal=false), a key that is not a channel any more; batches mixing leaseholders
+    p.append(dict(name="bfs_rename_internal", mode="bfs", sample=None if thorough else 250, prefer=refused_batch_rename,
+                  consts=dict(Node="{1,2}", BaseName='{"a"}', ExtraName='{"b"}', Kinds='{"virtual"}',
+                              Types='{"create","rename"}', MaxBatch=2, MaxReq=2, CtlRename="TRUE"), depth=2))
+    p.append(dict(name="bfs_rename_missing", mode="bfs", sample=3000 if thorough else 300, prefer=refused_batch_rename,
+                  consts=dict(Node="{1}", BaseName='{"a","b"}', ExtraName='{"c"}', Kinds='{"virtual"}',
+                              Types='{"create","delete","rename"}', MaxBatch=2, MaxReq=3), depth=3))
+    p.append(dict(name="sim_rename", mode="sim", num=2500 if thorough else 500,
+                  consts=dict(Node="{1,2}", BaseName='{"a","b"}', Kinds='{"index","virtual"}',
+                              MaxBatch=2, MaxReq=5, MaxCtr=24, CtlRename="TRUE"), depth=5))
     # two CreateMany calls inside one caller transaction
     p.append(dict(name="bfs_chain", mode="bfs", sample=3000 if thorough else 200,
                   consts=dict(Node="{1,2}", BaseName='{"a","b"}' if thorough else '{"a"}',
@@ -305,7 +336,7 @@ def gen_profiles(thorough):
     # wide random walks
     p.append(dict(name="sim3", mode="sim", num=2500 if thorough else 400,
                   consts=dict(Node="{1,2,3}", BaseName='{"a","b","c"}', ExtraName='{"a_time"}', Kinds=allk,
-                              Opts=opts, MaxBatch=2, MaxReq=5, MaxCtr=24, MaxRestart=1, Chain="TRUE"),
+                              Opts=opts, MaxBatch=2, MaxReq=5, MaxCtr=24, MaxRestart=1, Chain="TRUE", CtlRename="TRUE"),
                   depth=5))
     p.append(dict(name="sim2", mode="sim", num=2500 if thorough else 400,
                   consts=dict(Node="{1,2}", BaseName='{"a","b"}', ExtraName='{"a_time"}', Kinds=allk,
@@ -401,9 +432,8 @@ def run(ctx):
         tag = prof["name"]
         if not allh:
             raise vlib.Inconclusive("profile %s generated no behaviour" % tag)
-        chosen = allh
-        if prof.get("sample") and len(allh) > prof["sample"]:
-            chosen = vlib.sample(allh, prof["sample"], ctx.seed)
+        chosen = pick(allh, prof, ctx.seed)
+        if len(chosen) < len(allh):
             exhaustive_all = False
         if prof["mode"] == "sim":
             exhaustive_all = False
